@@ -1867,7 +1867,7 @@ func (p *Prog) closeBeforeReplaceFor(owner *types.Named, handleField, segField *
 				}
 				n++
 				k++
-				ob := Ob{Rule: "R20", Inst: fmt.Sprintf("d:close-before-replace:%s#%d", funcLabel(fn), k), Props: []string{"C03", "C08", "C12"}, Pos: p.at(c), Func: funcLabel(fn), Nontrivial: true}
+				ob := Ob{Rule: "R20", Inst: fmt.Sprintf("d:close-before-replace:%s#%d", funcLabel(fn), k), Props: []string{"C03", "C04", "C08", "C12"}, Pos: p.at(c), Func: funcLabel(fn), Nontrivial: true}
 				okC := false
 				for _, cc := range closeCalls {
 					if instrDominates(cc, c) && p.failureEdgeLeaves(ea, cc, c) {
@@ -5608,4 +5608,90 @@ func (p *Prog) headIsLast() []Ob {
 		obs = append(obs, Ob{Rule: "R3", Inst: "d:head-is-last", Props: []string{"C03", "C04", "C02", "C12"}, Pos: "-", Status: Undecided, Msg: "no method of the log installs a head writer"})
 	}
 	return obs
+}
+
+// ---------------------------------------------------------------------------
+// R2 O13 RECOVER-ON-OPEN (C05, C07, C01, C02): with Options.Recover set, a read-write Open builds the
+// head writer over a segment it found only after Segment.Recover ran: no path skips the recovery
+// because of something it looked up (a marker file, a first attempt that happened to work).
+func (p *Prog) recoverOnOpen() []Ob {
+	r := p.R
+	open := r.Open
+	rec := p.methodOf(r.Segment, "Recover")
+	ob := Ob{Rule: "R2", Inst: "O13:Open:recover-on-open", Props: []string{"C05", "C07", "C01", "C02"}, Pos: "-", Func: funcLabel(open), Nontrivial: true}
+	if open == nil || rec == nil {
+		ob.Status, ob.Msg = Undecided, "Open or Segment.Recover not found"
+		return []Ob{ob}
+	}
+	assume := Assume{"Recover": true, "Readonly": false}
+	succ := func(b *ssa.BasicBlock) []*ssa.BasicBlock { return p.prunedSuccs(b, assume) }
+	reach := reachableBlocks(open, succ)
+	// constructions of a head writer over a segment that was found (not one made on the spot)
+	var ctors []*ssa.Call
+	for _, b := range open.Blocks {
+		if !reach[b] {
+			continue
+		}
+		for _, ins := range b.Instrs {
+			c, ok := ins.(*ssa.Call)
+			if !ok {
+				continue
+			}
+			g := c.Common().StaticCallee()
+			if g == nil || !inModule(g) || g.Signature.Results().Len() == 0 {
+				continue
+			}
+			pt, ok := g.Signature.Results().At(0).Type().(*types.Pointer)
+			if !ok || namedOf(pt.Elem()) != r.HeadWriter {
+				continue
+			}
+			fresh := false
+			for _, a := range c.Call.Args {
+				if namedOf(a.Type()) == r.Segment {
+					if _, isCall := canon(a).(*ssa.Call); isCall {
+						fresh = true // segment.New(dir, 0, ...): an empty directory has nothing to recover
+					}
+				}
+			}
+			if !fresh {
+				ctors = append(ctors, c)
+			}
+		}
+	}
+	if len(ctors) == 0 {
+		ob.Status, ob.Msg = Undecided, "Open does not build a head writer over a found segment"
+		return []Ob{ob}
+	}
+	ob.Pos = p.at(ctors[0])
+	recBlocks := map[*ssa.BasicBlock]bool{}
+	for _, b := range open.Blocks {
+		for _, ins := range b.Instrs {
+			if c, ok := ins.(*ssa.Call); ok && p.callLeadsTo(c, rec) {
+				recBlocks[b] = true
+			}
+		}
+	}
+	seen := map[*ssa.BasicBlock]bool{}
+	work := []*ssa.BasicBlock{open.Blocks[0]}
+	for len(work) > 0 {
+		x := work[len(work)-1]
+		work = work[:len(work)-1]
+		if seen[x] || recBlocks[x] {
+			continue
+		}
+		seen[x] = true
+		work = append(work, succ(x)...)
+	}
+	var bad []string
+	for _, c := range ctors {
+		if seen[c.Block()] {
+			bad = append(bad, p.at(c)+": the head writer is built on a path that did not recover the head")
+		}
+	}
+	if len(bad) > 0 {
+		ob.Status, ob.Msg, ob.Path = Violated, "with Options.Recover set, Open can open the head for writing without having recovered it: a torn tail stays in the log, later appends land behind it and are lost with it at the next real recovery", bad
+	} else {
+		ob.Status, ob.Msg = Discharged, fmt.Sprintf("with Recover set every path of Open to the %d construction(s) of a head writer over a found segment passes Segment.Recover", len(ctors))
+	}
+	return []Ob{ob}
 }
